@@ -353,16 +353,24 @@ func ruleL2(r *core.Run) {
 						nSub++
 						aT, bT := tidy(fr.Raw(r, a)), tidy(fr.Raw(r, bb))
 						key := core.Key("L2-sub", r.P.Name(w.anchor), name+":"+aT+" - "+shorten(bT))
-						ea, eb := guard.Exact(aT), guard.Exact(bT)
-						atoms := []guard.Atom{
-							guard.True("sdk.Coin.IsGTE(" + ea + "," + eb + ")"),
-							guard.False("sdk.Coin.IsLT(" + ea + "," + eb + ")"),
-							guard.False("sdk.Coin.IsGTE(" + eb + "," + ea + ")"), // b < a
-							guard.True("sdk.Coin.IsLT(" + eb + "," + ea + ")"),
-							guard.True("sdk.Coins.IsAllGTE(" + ea + "," + eb + ")"),
-							guard.False("math.Int.GT(" + eb + ".Amount," + ea + ".Amount)"),
-							guard.True("math.Int.GTE(" + ea + ".Amount," + eb + ".Amount)"),
-							guard.False("math.Int.LT(" + ea + ".Amount," + eb + ".Amount)"),
+						var atoms []guard.Atom
+						// operands as rendered, and without the unstable-read marks (a comparison in an enclosing
+						// frame or in the helper renders the same records without them)
+						for _, pr := range [][2]string{{aT, bT}, {strings.ReplaceAll(aT, "~", ""), strings.ReplaceAll(bT, "~", "")}} {
+							ea, eb := guard.Exact(pr[0]), guard.Exact(pr[1])
+							atoms = append(atoms,
+								guard.True("sdk.Coin.IsGTE("+ea+","+eb+")"),
+								guard.False("sdk.Coin.IsLT("+ea+","+eb+")"),
+								guard.False("sdk.Coin.IsGTE("+eb+","+ea+")"), // b < a
+								guard.True("sdk.Coin.IsLT("+eb+","+ea+")"),
+								guard.True("sdk.Coins.IsAllGTE("+ea+","+eb+")"),
+								guard.False("math.Int.GT("+eb+".Amount,"+ea+".Amount)"),
+								guard.True("math.Int.GTE("+ea+".Amount,"+eb+".Amount)"),
+								guard.False("math.Int.LT("+ea+".Amount,"+eb+".Amount)"),
+							)
+							if !strings.Contains(aT+bT, "~") {
+								break
+							}
 						}
 						if ok, _ := mustPassDeep(r, w.anchor, effSite{Ins: x, Chain: fr.Chain}, atoms); ok {
 							r.Discharge("L2-sub", key, r.P.Pos(x.Pos()), name+" dominated by a comparison of the same operands")
